@@ -100,12 +100,20 @@ def wresReply (r : WRes) (idx : Nat) : Reply :=
   | .err e => convertErr e idx
   | .panic => .panic
 
+/-- `ticks_representable`: `(secs * 90000.0).round() < u64::MAX as f64` (= 2^64) -/
+def ticksRepresentable (x : F64) : Bool :=
+  match F64.mulNat x 90000 with
+  | .fin false m e => (if e ≥ 0 then m * 2^e.toNat else (m * 2 + 2^(-e).toNat) / (2 * 2^(-e).toNat)) < 2^64
+  | .fin true _ _ => true
+  | _ => false
+
 /-- `write_video` -/
 def Muxer.writeVideo (m : Muxer) (pts : F64) (data : Bytes) (key : Bool) : Muxer × Reply :=
   let idx := m.vCount
   if data = [] then (m, .err .emptyVideoFrame (some idx)) else
   if ¬ pts.isFinite then (m, .err .invalidVideoPts (some idx)) else
   if pts.isNeg then (m, .err .negativeVideoPts (some idx)) else
+  if ¬ ticksRepresentable pts then (m, .err .invalidVideoPts (some idx)) else
   if (match m.lastVideoPts with | some prev => F64.le pts prev | none => false) then
     (m, .err .nonIncreasingVideoPts (some idx)) else
   let t := pts.ticks
@@ -121,8 +129,10 @@ def Muxer.writeVideoDts (m : Muxer) (pts dts : F64) (data : Bytes) (key : Bool) 
   if data = [] then (m, .err .emptyVideoFrame (some idx)) else
   if ¬ pts.isFinite then (m, .err .invalidVideoPts (some idx)) else
   if pts.isNeg then (m, .err .negativeVideoPts (some idx)) else
+  if ¬ ticksRepresentable pts then (m, .err .invalidVideoPts (some idx)) else
   if ¬ dts.isFinite then (m, .err .invalidVideoDts (some idx)) else
   if dts.isNeg then (m, .err .negativeVideoDts (some idx)) else
+  if ¬ ticksRepresentable dts then (m, .err .invalidVideoDts (some idx)) else
   if (match m.lastVideoDts with | some prev => F64.le dts prev | none => false) then
     (m, .err .nonIncreasingDts (some idx)) else
   let tp := pts.ticks
@@ -139,6 +149,7 @@ def Muxer.writeAudio (m : Muxer) (pts : F64) (data : Bytes) : Muxer × Reply :=
   let idx := m.aCount
   if ¬ pts.isFinite then (m, .err .invalidAudioPts (some idx)) else
   if pts.isNeg then (m, .err .negativeAudioPts (some idx)) else
+  if ¬ ticksRepresentable pts then (m, .err .invalidAudioPts (some idx)) else
   if data = [] then (m, .err .emptyAudioFrame (some idx)) else
   if (match m.lastAudioPts with | some prev => F64.lt pts prev | none => false) then
     (m, .err .decreasingAudioPts (some idx)) else
